@@ -1,6 +1,6 @@
 """C01 — delta round-trip reconstructs the source byte-for-byte (DESIGN §7 C01)."""
 from rules.common import *  # noqa: F401,F403
-from rules.scan import Scan, ENGINES, LOOKUPS, confirming_lookups
+from rules.scan import Scan, ENGINES, confirming_lookups, data_param, returns_block_index, lookup_data_arg, lookup_weak_arg
 from callgraph import callgraph_of
 from terms import term_of, place_term, strip_payload
 
@@ -108,7 +108,7 @@ def r1(ctx, F, sc, conf):
                 why = '%s does not confirm candidates with the strong hash (%s)' % (c.split('::')[-1], reason)
                 continue
             # data argument = source[pos .. pos + block_size]
-            data_arg = lt['args'][2] if c != 'signature::SignatureTable::find_match_strong' else lt['args'][1]
+            data_arg = lookup_data_arg(F, lt)
             rd = sc.range_desc(data_arg)
             if not rd or not rd[0] or rd[1] != 'Range':
                 why = 'the confirmed data is not a range of the source'
@@ -122,7 +122,7 @@ def r1(ctx, F, sc, conf):
             len_t = strip_payload(sc.term(pt['args'][2]))
             len_ok = is_bs_term(len_t)
             off_o = fl.origins(pt['args'][1])
-            idx_ok = any(o.kind == 'call' and o.bb == lb and o.path[-1:] == ('index',) for o in off_o)
+            idx_ok = any(o.kind == 'call' and o.bb == lb and (o.path[-1:] == ('index',) or returns_block_index(F, c)) for o in off_o)
             if not len_ok:
                 why = 'copy length is not the block size of the confirmed window'
                 continue
@@ -169,7 +169,8 @@ def r2(ctx, F, sc):
     pos = None
     for lb, lt in sc.lookups:
         c = callee(lt)
-        rd = sc.range_desc(lt['args'][2] if c != 'signature::SignatureTable::find_match_strong' else lt['args'][1])
+        da = lookup_data_arg(F, lt)
+        rd = sc.range_desc(da) if da is not None else None
         if rd and rd[1] == 'Range':
             st = strip_payload(rd[2]['start'])
             if st[0] == 'phi' and st[1] in pos_cands:
